@@ -1,14 +1,28 @@
 import Morlock.Model.Fen
+import Morlock.Proofs.FenCanon
+import Morlock.Proofs.RepExample
 /-!
-# C14 — FEN codec round-trips (component lemmas)
+# C14 — the FEN codec round-trips
 
-The full round-trip statements are kept as `def …Statement`. Proved here: every finite component of the
-codec round-trips (rights, side, target squares, piece letters, the integer reader on the digits
-it accepts). The placement part (encode reads the position through `square`, decode rebuilds it with
-`xor`) needs the `Rep` machinery of C02 and is decided by the differential streams meanwhile.
+Subject: `Morlock.Model.Fen` (`decode`, `encode` and the readers/printers they use), the
+transcription of `pkg/board/fen/fen.go`.
+
+* `decode_encode`: `Decode (Encode p c np fm) = (p, c, np, fm)` for **every** position all of whose
+  redundant views agree with a mailbox board (`Rep p b`, `Morlock/Proofs/Rep.lean`), whose rights are
+  among the four bits, whose en-passant target is on the board, and for all clocks `0 … MaxInt64`.
+  No enumeration of positions is involved. The clock bound is necessary in the model (the model's
+  clocks are unbounded `Int`s, `Atoi` is `int64`): `clock_bound_needed`.
+* `encode_decode`: `Encode (Decode s) = s` for every line `s` of the standard FEN grammar
+  (`Canonical`, `Morlock/Proofs/FenCanon.lean`) that `Decode` accepts; `canonical_accepted`: it accepts
+  all of them whose clocks fit `int64`; `encode_canonical`: `Encode` only writes such lines.
+* the component lemmas (rights, side, target squares, piece letters) are kept below.
+
+Proof layers: `Morlock/Proofs/FenLex.lean` (trim/split/`Atoi∘Itoa`), `FenRank.lean` (run-length
+encoding of a rank vs. the cursor loop), `FenBoard.lean` (eight ranks, `NewPosition`), `FenDecode.lean`
+(`decode` field by field), `FenRoundtrip.lean`, `FenCanon.lean`.
 -/
 namespace Morlock.Props.C14
-open Morlock Morlock.Model Morlock.Model.Fen
+open Morlock Morlock.Model Morlock.Model.Fen Morlock.Proofs Morlock.Proofs.Fen
 
 /-- decode ∘ encode = id (full statement). -/
 def DecodeEncodeStatement (WF : Position → Prop) : Prop :=
@@ -33,5 +47,108 @@ theorem parseMove_case_insensitive :
     parseMove "E7E8Q".toList = parseMove "e7e8q".toList ∧ parseMove "e2e4".toList = some { «from» := 11, to := 27 } := by decide
 
 example : parseCastling (printCastling 11).toList = some 11 := by decide
+
+/-! ## decode ∘ encode = id -/
+
+/-- **C14 `decode_encode`.** For every position `p` all of whose views agree with a board (`Rep p b`),
+    with castling rights `< 16` and en-passant target `< 64`, every side to move and all clocks
+    `0 ≤ np, fm ≤ MaxInt64`: decoding the encoding returns exactly `p` (all five fields: both piece
+    tables, the four rotated occupancies, rights, target), the side and the clocks. -/
+theorem decode_encode {p : Position} {b : Board} (h : Rep p b) (hc : p.castling < 16)
+    (he : p.enpassant < 64) (c : Color) (np fm : Nat)
+    (hnp : np ≤ 9223372036854775807) (hfm : fm ≤ 9223372036854775807) :
+    decode (encode p c np fm).toList = some ⟨p, c, np, fm⟩ :=
+  decode_encode_of_rep h hc he c np fm hnp hfm
+
+/-- The kept statement `DecodeEncodeStatement`, with the clocks restricted to `int64`. -/
+theorem decodeEncodeStatement_int64 :
+    ∀ p c (np fm : Nat), (∃ b, Rep p b) ∧ p.castling < 16 ∧ p.enpassant < 64 →
+      np ≤ 9223372036854775807 → fm ≤ 9223372036854775807 →
+      decode (encode p c np fm).toList = some ⟨p, c, np, fm⟩ := by
+  intro p c np fm ⟨⟨b, h⟩, hc, he⟩ hnp hfm
+  exact decode_encode h hc he c np fm hnp hfm
+
+/-- The bound on the clocks cannot be dropped: the model's clocks are mathematical integers while
+    `Atoi` rejects numerals above `MaxInt64`, so `DecodeEncodeStatement WF` is false for every `WF`
+    that holds of the empty position. (In Go the clocks are `int`, so the bound always holds there.) -/
+theorem clock_bound_needed : decode (encode {} .white 9223372036854775808 1).toList = none := by decide
+
+theorem decodeEncodeStatement_false (WF : Position → Prop) (h : WF {}) : ¬ DecodeEncodeStatement WF := by
+  intro hs
+  have := hs {} .white 9223372036854775808 1 h
+  rw [show ((9223372036854775808 : Nat) : Int) = 9223372036854775808 from rfl,
+    show ((1 : Nat) : Int) = 1 from rfl, clock_bound_needed] at this
+  cases this
+
+/-- The same in the weaker shape: the decoded position represents the same board. -/
+theorem decode_encode_rep {p : Position} {b : Board} (h : Rep p b) (hc : p.castling < 16)
+    (he : p.enpassant < 64) (c : Color) (np fm : Nat)
+    (hnp : np ≤ 9223372036854775807) (hfm : fm ≤ 9223372036854775807) :
+    ∃ p', decode (encode p c np fm).toList = some ⟨p', c, np, fm⟩ ∧ Rep p' b ∧
+      p'.castling = p.castling ∧ p'.enpassant = p.enpassant :=
+  ⟨p, decode_encode h hc he c np fm hnp hfm, h, rfl, rfl⟩
+
+/-- `exPos` = `r3k2r/1P6/8/3pP3/8/8/8/R3K2R w KQkq d6` (built by `NewPosition`, so `Rep` holds):
+    what `Encode` writes, and that it decodes back to `exPos`. -/
+example : encode exPos .white 0 1 = "r3k2r/1P6/8/3pP3/8/8/8/R3K2R w KQkq d6 0 1" ∧
+    decode "r3k2r/1P6/8/3pP3/8/8/8/R3K2R w KQkq d6 0 1".toList = some ⟨exPos, .white, 0, 1⟩ := by
+  have e : encode exPos .white 0 1 = "r3k2r/1P6/8/3pP3/8/8/8/R3K2R w KQkq d6 0 1" := by decide +kernel
+  refine ⟨e, ?_⟩
+  rw [← e]
+  exact decode_encode (np := 0) (fm := 1) exPos_rep (by decide +kernel) (by decide +kernel) .white
+    (by decide) (by decide)
+
+/-! ## encode ∘ decode = id -/
+
+/-- **C14 `encode_decode`.** For every line `s` of the standard FEN grammar (`Canonical`: six fields
+    joined by single spaces; eight `/`-separated ranks of exactly eight squares, digits `1`–`8` never
+    adjacent; `w`|`b`; `-` or a non-empty subsequence of `KQkq`; `-` or a square `a1`…`h8` except `h1`;
+    two numerals without sign or leading zeros) that `Decode` accepts, `Encode` of the result is `s`. -/
+theorem encode_decode {s : List Char} {x : Decoded} (hc : Canonical s) (hd : decode s = some x) :
+    encode x.pos x.turn x.noprogress x.fullmoves = String.ofList s :=
+  encode_decode_canonical hc hd
+
+/-- `Decode` accepts every line of the standard grammar whose two clocks fit `int64`. -/
+theorem canonical_accepted {rks : List (List Char)} {p1 p2 p3 p4 p5 : List Char}
+    (hc : CanonFields rks p1 p2 p3 p4 p5)
+    (h4 : Nat.ofDigitChars 10 p4 0 ≤ 9223372036854775807) (h5 : Nat.ofDigitChars 10 p5 0 ≤ 9223372036854775807) :
+    ∃ x, decode (join6 (List.intercalate ['/'] rks) p1 p2 p3 p4 p5) = some x :=
+  Fen.canonical_accepted hc h4 h5
+
+/-- `Encode` only writes lines of the standard grammar (for represented positions with rights `< 16`
+    and target `< 64`), so `encode_decode` applies to everything `Encode` produces. -/
+theorem encode_canonical {p : Position} {b : Board} (h : Rep p b) (hc : p.castling < 16)
+    (he : p.enpassant < 64) (c : Color) (np fm : Nat) : Canonical (encode p c np fm).toList :=
+  Fen.encode_canonical h hc he c np fm
+
+/-- `Encode` output is a fixed point of `Encode ∘ Decode`. -/
+theorem encode_fixed_point {p : Position} {b : Board} (h : Rep p b) (hc : p.castling < 16)
+    (he : p.enpassant < 64) (c : Color) (np fm : Nat) {x : Decoded}
+    (hd : decode (encode p c np fm).toList = some x) :
+    encode x.pos x.turn x.noprogress x.fullmoves = encode p c np fm := by
+  rw [encode_decode (encode_canonical h hc he c np fm) hd, String.ofList_toList]
+
+/-- `h1` as a target does not survive (`Decode` reads it as square 0 = "none"): the exclusion in
+    `Canonical` is necessary. -/
+theorem h1_target_lost :
+    (decode "8/8/8/8/8/8/8/8 w - h1 0 1".toList).map (fun d => encode d.pos d.turn d.noprogress d.fullmoves) =
+      some "8/8/8/8/8/8/8/8 w - - 0 1" := h1_not_roundtrip
+
+/-- The initial position is a line of the grammar; whatever it decodes to encodes back to it. -/
+example : Canonical "rnbqkbnr/pppppppp/8/8/8/8/PPPPPPPP/RNBQKBNR w KQkq - 0 1".toList :=
+  ⟨["rnbqkbnr".toList, "pppppppp".toList, "8".toList, "8".toList, "8".toList, "8".toList,
+     "PPPPPPPP".toList, "RNBQKBNR".toList], ['w'], "KQkq".toList, ['-'], ['0'], ['1'], by decide,
+   by decide, by decide, Or.inl rfl, Or.inr ⟨by decide, by decide⟩, Or.inl rfl,
+   ⟨by decide, by decide, by decide⟩, ⟨by decide, by decide, by decide⟩⟩
+
+example : ∃ x, decode "rnbqkbnr/pppppppp/8/8/8/8/PPPPPPPP/RNBQKBNR w KQkq e3 0 1".toList = some x ∧
+    encode x.pos x.turn x.noprogress x.fullmoves = "rnbqkbnr/pppppppp/8/8/8/8/PPPPPPPP/RNBQKBNR w KQkq e3 0 1" := by
+  have hc : CanonFields ["rnbqkbnr".toList, "pppppppp".toList, "8".toList, "8".toList, "8".toList, "8".toList,
+      "PPPPPPPP".toList, "RNBQKBNR".toList] ['w'] "KQkq".toList ['e', '3'] ['0'] ['1'] :=
+    ⟨by decide, by decide, Or.inl rfl, Or.inr ⟨by decide, by decide⟩,
+      Or.inr ⟨'e', '3', rfl, by decide, by decide, by decide⟩,
+      ⟨by decide, by decide, by decide⟩, ⟨by decide, by decide, by decide⟩⟩
+  obtain ⟨x, hx⟩ := canonical_accepted hc (by decide) (by decide)
+  exact ⟨x, hx, encode_decode ⟨_, _, _, _, _, _, rfl, hc⟩ hx⟩
 
 end Morlock.Props.C14
